@@ -894,6 +894,11 @@ static std::string case_variant(Ctx &c, const NameEnt &ne) {
   return n;
 }
 
+struct QuietLogger : mpt::logger {  // a logger that keeps the messages to itself
+  int messages = 0;
+  int log(const char *, int, const char *, va_list) override { ++messages; return 0; }
+};
+
 // ------------------------------------------------------------------------------------------------
 struct World_ {  // everything a case owns
   int flavour, kind;
@@ -996,7 +1001,7 @@ static void run_history(Ctx &c, int flavour, int kind) {
     std::string what;
     int target_prop = -1;        // index of the addressed listed property (-1: whole object)
     Expect ex;
-    bool is_reset = false, is_copy = false, unknown_name = false;
+    bool is_reset = false, is_copy = false, is_assign = false, assign_logger = false, unknown_name = false;
     size_t src = 0;
     Value val;
     std::string name;
@@ -1037,10 +1042,40 @@ static void run_history(Ctx &c, int flavour, int kind) {
     } else {
       is_copy = true;
       src = (t + 1 + c.pick(nobj - 1)) % nobj;
-      bool null_name = c.flip();
+      // one byte: bit 0 = name NULL / "", bits 1+2 both set (1 of 4) = property-wise assignment object::set(const object &), bit 3 = with a logger
+      uint8_t cb = c.u8();
+      bool null_name = cb & 1, prop_wise = (cb & 6) == 6;
       what = "copy " + std::string(kKind[kind]) + "#" + std::to_string(t) + " <- #" + std::to_string(src) + (null_name ? " (name NULL" : " (name \"\"");
       Obj *so = w.objs[src];
-      if (flavour == 1 && c.chance(64)) {
+      {  // how far the target's own history and the source's differ from the defaults
+        bool t_only = false, s_only = false;
+        for (size_t i = 0; i < fresh.size(); i++) {
+          bool td = snap[t][i].val != fresh[i].val, sd = snap[src][i].val != fresh[i].val;
+          if (td && !sd) t_only = true;
+          if (sd && !td) s_only = true;
+        }
+        if (diff(fresh, snap[t]).size()) c.label("copy:onto-changed-target");
+        if (t_only) c.label("copy:target-set-where-source-default");
+        if (s_only) c.label("copy:source-set-where-target-default");
+        if (t_only && prop_wise) c.label("copy:object-set-target-set-source-default");
+      }
+      if (prop_wise) {
+        // the generic property-wise assignment of the C++ object interface (layout inheritance: make_axis, make_world,
+        // layout::bind, "text tx1 : tx"): every listed property of the source is set on the target under its name.
+        // Its bool result is the converted count/error of mpt_object_foreach (an error is negative, hence "true"), so
+        // the oracle does not depend on it: afterwards the target must read like the source.
+        is_assign = true;
+        what = "assign " + std::string(kKind[kind]) + "#" + std::to_string(t) + " <- #" + std::to_string(src) + " property-wise (object::set(const object &))";
+        c.logf("step %u: %s", steps, what.c_str());
+        assign_logger = (cb & 8) != 0;
+        QuietLogger quiet;
+        bool ok = o->object()->set(*so->object(), assign_logger ? static_cast<mpt::logger *>(&quiet) : (mpt::logger *)0);
+        c.logf("    %s, %d messages", assign_logger ? "with a logger" : "without logger", quiet.messages);
+        if (assign_logger) c.label("copy:object-set-with-logger");
+        c.logf("    object::set reports %s", ok ? "true" : "false");
+        ret = 0;
+        c.label("copy:object-set");
+      } else if (flavour == 1 && c.chance(64)) {
         what = "clone " + std::string(kKind[kind]) + "#" + std::to_string(src) + " into slot #" + std::to_string(t);
         c.logf("step %u: %s", steps, what.c_str());
         Obj *n = so->clone();
@@ -1082,6 +1117,30 @@ static void run_history(Ctx &c, int flavour, int kind) {
       c.label(is_copy ? "copy:refused" : is_reset ? "reset:refused" : "set:refused");
     } else if (is_copy) {
       std::string d = diff(snap[src], after[t]);
+      if (is_assign) {
+        // Expected: every listed property reads like the source's. Modelled from the code as it stands:
+        //  * text "x"/"y" store any float, but the setter of the listed property "pos" - the only way the property-wise
+        //    assignment can transfer the position - refuses coordinates outside [0,1] (mpt_text_set: r = { 0.0, 1.0 };
+        //    NaN passes the comparison): such a position is refused and the target keeps its own.
+        //  * object_set_property() returns "dat->out ? 1 : -1" for a refused property: with a logger the traversal goes
+        //    on, without one mpt_properties_foreach stops there and the properties listed behind it stay untouched.
+        bool stopped = false;
+        for (size_t i = 0; i < fresh.size(); i++) {
+          bool refused = false;
+          unsigned bx = 0, by = 0;
+          if (kind == KText && fresh[i].name == "pos" && sscanf(snap[src][i].val.c_str(), "pt:f:%8x(%*[^)]),f:%8x(", &bx, &by) == 2) {
+            float x, y; memcpy(&x, &bx, 4); memcpy(&y, &by, 4);
+            refused = x < 0 || x > 1 || y < 0 || y > 1;
+            if (refused) c.label("copy:object-set-text-pos-out-of-range");
+          }
+          const std::string &want = (stopped || refused) ? snap[t][i].val : snap[src][i].val;
+          VP_CHECK(c, after[t][i].val == want, "assign-differs", "%s: %s reads %s afterwards, expected %s (source %s, target before %s%s)", what.c_str(), fresh[i].name.c_str(),
+                   printable(after[t][i].val, 80).c_str(), printable(want, 80).c_str(), printable(snap[src][i].val, 80).c_str(), printable(snap[t][i].val, 80).c_str(),
+                   stopped ? "; traversal stopped at a refused property, no logger" : refused ? "; value the setter refuses" : "");
+          if (refused && !assign_logger) stopped = true;
+        }
+        d.clear();
+      }
       VP_CHECK(c, d.empty(), "copy-differs", "%s accepted (%d) but the copy differs from the source: %s", what.c_str(), ret, d.c_str());
       for (size_t i = 0; i < after[t].size(); i++)
         if (after[t][i].strptr && fk_of(kind, after[t][i].name) == FStr)  // clip reads as a constant of the library
